@@ -179,8 +179,9 @@ def readParts (ib : Bytes) : Nat → R → Res (List Part)
         let hs := hs.filterMap id
         let pd := partParams hs
         let ct := partCtype hs
+        -- (a part of type application/x-www-form-urlencoded is an atomic part like any other since the repair
+        --  233a847; before it, the parser read the rest of the body as a query string)
         if ct.take 10 = "multipart/".toList then .unsupported
-        else if ct = "application/x-www-form-urlencoded".toList then .unsupported
         else
           let filename := dictGet pd "filename"
           let body := readLines rd (DASH :: DASH :: ib) (DASH :: DASH :: ib ++ [DASH, DASH]) fuel ⟨[], [], true⟩ hl.2
